@@ -4961,12 +4961,15 @@ class Entity(object, metaclass=EntityMeta):
         objects = entity._fetch_objects(cursor, attr_offsets)
         if obj not in objects: throw(UnrepeatableReadError,
                                      'Phantom object %s disappeared' % safe_repr(obj))
-    def _attr_changed_(obj, attr):
+    def _check_attr_change_(obj, attr):
         cache = obj._session_cache_
         if cache is None or not cache.is_alive: throw_db_session_is_over('assign new value to', obj, attr)
         if cache is not local.db2cache.get(cache.database):
             throw(TransactionError, "Object %s doesn't belong to current transaction" % safe_repr(obj))
         if obj._status_ in del_statuses: throw_object_was_deleted(obj)
+    def _attr_changed_(obj, attr):
+        obj._check_attr_change_(attr)
+        cache = obj._session_cache_
         status = obj._status_
         wbits = obj._wbits_
         bit = obj._bits_[attr]
